@@ -3,6 +3,8 @@ import ALV.Model.C08
 import ALV.Spec.C08
 import ALV.Model.C08Hist
 import ALV.Spec.C08Hist
+import ALV.Model.C08Call
+import ALV.Spec.C08Call
 namespace ALV.Driver.C08
 open ALV ALV.J ALV.C08
 
@@ -35,6 +37,124 @@ def sizeHop (j : Json) : Except String (Nat × Nat) := do
   let hop ← getNat (← field j "hop")
   if size = 0 ∨ hop = 0 then throw "size and hop must be positive"
   pure (size, hop)
+
+
+/-! ### the call layer: shapes, spellings, defaults, length-changing caller operations -/
+
+/-- a JSON value read as a numeric parameter: int, `{"b":…}` (bool), `{"f":repr,"q":"p/q"}` (float with its
+exact value), `{"fr":"p/q"}` (Fraction), `null` (None); anything else has no arithmetic -/
+def asNum (j : Json) : Num :=
+  match j with
+  | Json.int i => .int i
+  | Json.null => .none
+  | Json.obj _ =>
+    match j.getObjVal? "b", j.getObjVal? "f", j.getObjVal? "q", j.getObjVal? "fr" with
+    | some (Json.bool b), _, _, _ => .int (if b then 1 else 0)
+    | _, some _, some q, _ => match getRat q with | .ok r => .flt r | _ => .other
+    | _, _, _, some q => match getRat q with | .ok r => .frac r | _ => .other
+    | _, _, _, _ => .other
+  | _ => .other
+
+/-- the data argument travels as `{"seq":true}`; every other value is not iterable -/
+def asIter (j : Json) : Bool :=
+  match j.getObjVal? "seq" with
+  | some (Json.bool true) => true
+  | _ => false
+
+def endJson : CallEnd → Json
+  | .stop => Json.str "stop"
+  | .srcFail => Json.str "srcFail"
+  | .err .typeError => Json.str "TypeError"
+  | .err .valueError => Json.str "ValueError"
+  | .err .overflowError => Json.str "OverflowError"
+
+def runJson (r : CallRun Json) : Json :=
+  Json.mkObj [("events", evJson r.events), ("ending", endJson r.ending), ("pulled", natToJson r.pulled)]
+
+def getKw (j : Json) : Except String (List (String × Json)) := do
+  (← getArr j).mapM fun p => do
+    match ← getArr p with
+    | [k, v] => pure (← getStr k, v)
+    | _ => throw s!"bad keyword pair {p.compress}"
+
+def getOp (j : Json) : Except String (DqOp Json) := do
+  match ← getArr j with
+  | [Json.str "append", v] => pure (.append v)
+  | [Json.str "appendleft", v] => pure (.appendleft v)
+  | [Json.str "pop"] => pure .pop
+  | [Json.str "popleft"] => pure .popleft
+  | [Json.str "clear"] => pure .clear
+  | [Json.str "extend", vs] => pure (.extend (← getArr vs))
+  | [Json.str "del", i] => pure (.del (← getNat i))
+  | [Json.str "insert", i, v] => pure (.insert (← getNat i) v)
+  | _ => pure (.keep (← getEdit j))
+
+/-- the float zero, default of `padval` and of `zero` -/
+def floatZero : Json := Json.mkObj [("f", Json.str "0.0")]
+
+/-- `xrange` counts above the cap of a capped read are cut to the cap (only the first `cap` outputs are compared) -/
+def clampNum (cap : Option Nat) (j : Json) : Json :=
+  match cap, j with
+  | some c, Json.int i => if (c : Int) < i then Json.int c else j
+  | _, _ => j
+
+def handleCall (entry : String) (j : Json) : Except String Json := do
+  match entry with
+  | "call" =>
+    let fn ← getStr (← field j "fn")
+    let pos ← getArr (← field j "pos")
+    let kw ← getKw (← field j "kw")
+    let xs ← getXs j
+    let e ← getEnding j
+    let withSpec := fun (size hop : Option Json) (padval : Option Json) (seq : Json) =>
+      runJson (blocksCallSpec floatZero ((size.map asNum).getD .none) ((hop.map asNum).getD .none)
+        padval (asIter seq) xs e)
+    let m := match fn with
+      | "stream" => streamBlocksApply asNum asIter floatZero (Json.mkObj [("seq", Json.bool true)]) pos kw xs e
+      | _ => blocksApply asNum asIter floatZero pos kw xs e
+    let pos' := if fn == "stream" then Json.mkObj [("seq", Json.bool true)] :: pos else pos
+    let sp := match bind blocksParams 1 pos' kw with
+      | some [some seq, size, hop, padval] => withSpec size hop padval seq
+      | _ => Json.null
+    pure <| Json.mkObj [("model", match m with | some r => runJson r | none => Json.null), ("spec", sp)]
+  | "zcall" =>
+    let cap := match optField j "cap" with | some (Json.int c) => some c.toNat | _ => none
+    let pos := (← getArr (← field j "pos"))
+    let kw := (← getKw (← field j "kw"))
+    let clampSlot := fun (i : Nat) (v : Json) => if i = 1 ∨ i = 2 then clampNum cap v else v
+    let pos := pos.zipIdx.map fun p => clampSlot p.2 p.1
+    let kw := kw.map fun p => if p.1 == "left" ∨ p.1 == "right" then (p.1, clampNum cap p.2) else p
+    let xs ← getXs j
+    let e ← getEnding j
+    let cn : Nat := match cap with | some c => c | none => xs.length + 1000000
+    let m := zeroPadApply asNum asIter floatZero pos kw xs e
+    let sp := match bind zeroPadParams 1 pos kw with
+      | some [some seq, left, right, zero] =>
+        let r := zeroPadCallSpec floatZero (left.map asNum) (right.map asNum) zero (asIter seq) xs e
+        Json.mkObj [("out", arr id (r.1.take cn)), ("reads", nats (r.2.1.take cn)), ("ending", endJson r.2.2),
+          ("total", natToJson r.1.length)]
+      | _ => Json.null
+    pure <| Json.mkObj [
+      ("model", match m with
+        | some r => Json.mkObj [("out", arr id ((r.out.map Prod.snd).take cn)), ("reads", nats ((r.out.map Prod.fst).take cn)),
+            ("ending", endJson r.ending), ("total", natToJson r.out.length)]
+        | none => Json.null),
+      ("spec", sp)]
+  | "mutg" =>
+    -- the caller changes the LENGTH of the yielded deque / makes operations that fail
+    let (size, hop) ← sizeHop j
+    let pad := fieldD j "pad" Json.null
+    let xs ← getXs j
+    let eds ← (← getArr (← field j "ops")).mapM (fun e => do (← getArr e).mapM getOp)
+    let ops : Nat → List (DqOp Json) := fun k => eds.getD k []
+    let m := blocksMut size hop pad (fun k => applyOps size (ops k)) xs
+    let fails := bloopMutFails size hop ops (⟨[], 0⟩ : BState Json) 0 xs
+    pure <| Json.mkObj [("model", arr (arr id) m),
+      ("fails", arr (arr Json.bool) fails),
+      ("spec", if size ≤ hop then arr (arr id) (blocksClosed size hop pad xs)
+               else arr (arr id) (mutSpecG size hop pad (fun k => applyOps size (ops k)) xs)),
+      ("plain", arr (arr id) (blocksClosed size hop pad xs))]
+  | _ => throw s!"C08: unknown entry {entry}"
 
 /-- items are arbitrary JSON values (heterogeneous), the model is polymorphic -/
 def handle1 (entry : String) (j : Json) : Except String Json := do
@@ -115,7 +235,7 @@ def handle1 (entry : String) (j : Json) : Except String Json := do
       ("trace", arr id (t.1.map Prod.snd)), ("trace_reads", nats (t.1.map Prod.fst)),
       ("raised", Json.bool t.2),
       ("spec_trace", arr id specItems), ("spec_reads", nats specReads)]
-  | _ => throw s!"C08: unknown entry {entry}"
+  | _ => handleCall entry j
 
 def handle (entry : String) (j : Json) : Except String Json := do
   match entry with
